@@ -6,17 +6,25 @@ from .common import *
 
 CONFIGS = ['default']
 CONFIGS_THOROUGH = ['default', 'full']
-TECHNIQUE = 'effect analysis (barrier oracles read no scaling state), decision table of the primal-dual scaling fallback, path rule on the scaling update order'
+TECHNIQUE = ('effect analysis (barrier oracles read no scaling state), decision table of the primal-dual scaling fallback, path rule on the '
+             'scaling update order, abstract interpretation over rational functions with opaque transcendental atoms (Euler identities of the '
+             'barrier derivatives)')
 EXPLANATION = (
-    "Derivative formulas (gradient, Hessian, third-order correction, conjugacy) are numerical and NOT decided; "
-    "checking them would need symbolic differentiation. Decided on the MIR of the current tree: (R1) for the "
+    "That the derivative formulas are the derivatives of the stated barriers (which would need symbolic differentiation), the "
+    "third-order correction, conjugacy proper (grad f*(s) solves grad f(-g) = -s) and everything about the generalised power "
+    "cone's formulas (element-wise loops) are NOT decided. Decided on the MIR of the current tree: (R1) for the "
     "exponential, power and generalised power cones the membership tests, barrier functions and the primal gradient "
     "are functions of their argument and construction-time constants only - they read no field that the scaling "
     "update writes (declared scratch excepted); (R2) the primal-dual scaling formula is used only under the four "
-    "documented guards and every other path falls back to mu*H; update_Hs selects by the strategy; the generalised "
+    "documented guards and every other path falls back to mu*H with mu = <s,z>/3; update_Hs selects by the strategy; the generalised "
     "power cone never claims primal-dual scaling; (R3) update_scaling refreshes the dual gradient/Hessian before "
-    "the scaling matrix and records the scaling point z on every successful path.")
-ASSUMPTIONS = ['rustc MIR construction and trait resolution are correct']
+    "the scaling matrix and records the scaling point z on every successful path; (R4) logarithmic homogeneity: for the "
+    "exponential and the power cone the dual gradient and Hessian satisfy <grad, z> = -3 and H z = -grad, and the primal "
+    "gradient map satisfies <g(s), s> = -3 on every path, as identities of rational functions in (z, alpha) and the opaque "
+    "values of log / powf / the Newton and Wright-omega roots - a necessary condition of being the derivatives of a "
+    "3-logarithmically-homogeneous barrier resp. of its conjugate.")
+ASSUMPTIONS = ['rustc MIR construction and trait resolution are correct',
+               'R4: identities over the reals; log(a b) = log a + log b and omega + log omega = x for omega = wright_omega(x)']
 
 NONSYM = ('ExponentialCone', 'PowerCone', 'GenPowerCone')
 ORACLES = ('is_primal_feasible', 'is_dual_feasible', 'barrier_dual', 'barrier_primal', 'gradient_primal')
@@ -168,6 +176,135 @@ def update_order(rep, F, E, tag):
     R.guard(body)
 
 
+# ---------------------------------------------------------------------------
+# logarithmic homogeneity (Euler identities) of the barrier derivatives
+# ---------------------------------------------------------------------------
+import re as _re
+from fractions import Fraction
+from engine.linform import LFSplit, P_atom, P_const, P_add, P_mul, P_fmt, RatF, to_ratf
+
+NU3 = 3   # barrier parameter of the three-dimensional exponential and power cones
+
+
+def _atoms(prefix):
+    def atoms(k, s_):
+        m = _re.fullmatch(r'arg2\[(\d)_usize\]', k)
+        if m:
+            return ('S', P_atom('%s%s' % (prefix, m.group(1))))
+        if k == 'self.α':
+            return ('S', P_atom('alpha'))
+        if k.startswith(('powf(', 'logsafe(', '_wright_omega(', '_newton_raphson', 'abs(', 'ln(', 'exp(')):
+            return ('S', P_atom(k))
+        return None
+    return atoms
+
+
+def euler_identities(rep, F, E, tag):
+    """A nu-logarithmically-homogeneous barrier f satisfies <grad f(x), x> = -nu and H(x) x = -grad f(x) for every
+    interior x, whatever the transcendental parts (log, powf, the Newton / Wright-omega roots) evaluate to; the same
+    holds for the conjugate barrier whose gradient is the primal gradient map.  Both are identities of rational
+    functions in (x, alpha, opaque atoms) and are decided exactly."""
+    R = rep.rule('C14.R4', 'Euler identities of the 3-d barriers: <grad, z> = -3, H z = -grad (dual side); <gradient_primal(s), s> = -3')
+
+    def body():
+        n = 0
+        for K in ('ExponentialCone', 'PowerCone'):
+            f = F.one(name='update_dual_grad_H', adt=K)
+            reg = {}
+            I = LFSplit(F, E, f, _atoms('z'), reg)
+            leaves = I.run({})
+            R.check(len(leaves) >= 1, 'dual-paths|%s%s' % (K, tag), 'no path through update_dual_grad_H', f.loc())
+            for li, (val, ret, st) in enumerate(leaves):
+                g = [st.get('self.grad[%d_usize]' % i) for i in range(3)]
+                H = {}
+                for k, v in st.items():
+                    m = _re.fullmatch(r'index_mut\(self\.H_dual, tuple\((\d)_usize, (\d)_usize\)\)', k)
+                    if m:
+                        H[(int(m.group(1)), int(m.group(2)))] = v
+                ok = all(x is not None and x[0] == 'S' for x in g) and len(H) == 6 and all(x is not None and x[0] == 'S' for x in H.values())
+                R.check(ok, 'dual-shape|%s|%d%s' % (K, li, tag), 'gradient / upper-triangular Hessian of %s not evaluated: grad %s, H entries %s' % (
+                    K, [x and x[0] for x in g], sorted(H)), f.loc())
+                if not ok:
+                    continue
+                n += 1
+                Q = lambda p_: to_ratf(p_, reg)
+                z = [RatF(P_atom('z%d' % i)) for i in range(3)]
+                e1 = RatF(P_const(NU3))
+                for i in range(3):
+                    e1 = e1 + Q(g[i][1]) * z[i]
+                R.check(e1.is_zero(), 'euler-grad|%s|%d%s' % (K, li, tag),
+                        '%s: <grad f(z), z> + 3 = %s, not identically zero: the dual gradient is not the gradient of a 3-logarithmically-homogeneous barrier' % (K, P_fmt(e1.n)[:200]), f.loc())
+                for i in range(3):
+                    row = Q(g[i][1])
+                    for j in range(3):
+                        row = row + Q(H[(min(i, j), max(i, j))][1]) * z[j]
+                    R.check(row.is_zero(), 'euler-hess|%s|row%d|%d%s' % (K, i, li, tag),
+                            '%s: (H z + grad)[%d] = %s, not identically zero: Hessian and gradient of the dual barrier are inconsistent' % (K, i, P_fmt(row.n)[:200]), f.loc())
+        R.check(n >= 2, 'dual-count' + tag, 'only %d dual-side evaluations' % n)
+        # primal gradient (conjugate map)
+        f = F.one(name='gradient_primal', adt='PowerCone')
+        reg = {}
+        I = LFSplit(F, E, f, _atoms('s'), reg)
+        leaves = I.run({}, local_stores=True)
+        R.check(len(leaves) >= 3, 'primal-paths|PowerCone' + tag, 'gradient_primal of the power cone has %d paths, expected the sign / small-s3 cases' % len(leaves), f.loc())
+        for li, (val, ret, st) in enumerate(leaves):
+            g = [st.get('var:g[%d_usize]' % i, st.get('g[%d_usize]' % i)) for i in range(3)]
+            ok = all(x is not None and x[0] == 'S' for x in g)
+            R.check(ok, 'primal-shape|PowerCone|%d%s' % (li, tag), 'gradient_primal result not evaluated: %s' % [x and x[0] for x in g], f.loc())
+            if not ok:
+                continue
+            e1 = RatF(P_const(NU3))
+            for i in range(3):
+                e1 = e1 + to_ratf(g[i][1], reg) * RatF(P_atom('s%d' % i))
+            R.check(e1.is_zero(), 'euler-primal|PowerCone|%d%s' % (li, tag),
+                    'PowerCone::gradient_primal on the path %s: <g, s> + 3 = %s, not identically zero - g is not the gradient of the conjugate barrier at s '
+                    '(e.g. g[0], g[1] formed from a g[2] that is changed afterwards)' % (val, P_fmt(e1.n)[:200]), f.loc())
+
+        # exponential cone: omega = wright_omega(A) is defined by omega + log(omega) = A, hence
+        # log(omega * q) = A - omega + log(q): the one transcendental relation the identity needs
+        f = F.one(name='gradient_primal', adt='ExponentialCone')
+        reg = {}
+        base = _atoms('s')
+        holder = {}
+
+        def atoms_exp(k, s_):
+            if k.startswith('logsafe(') and s_[0] == 'call' and len(s_[2]) == 1:
+                a = LFSplit._strip(s_[2][0])
+                if a[0] == 'call' and last_seg(a[1].split('#')[0]) == 'div' and len(a[2]) == 2:
+                    num, den = LFSplit._strip(a[2][0]), a[2][1]
+                    if num[0] == 'call' and last_seg(num[1].split('#')[0]) == 'mul' and len(num[2]) == 2:
+                        xs = [LFSplit._strip(x) for x in num[2]]
+                        om = [x for x in xs if x[0] == 'call' and last_seg(x[1].split('#')[0]) == '_wright_omega']
+                        ot = [x for x in xs if not (x[0] == 'call' and last_seg(x[1].split('#')[0]) == '_wright_omega')]
+                        if len(om) == 1 and len(ot) == 1:
+                            I_ = holder['I']
+                            A = I_.ev({}, om[0][2][0])
+                            w = I_.ev({}, om[0])
+                            if A is not None and w is not None and A[0] == 'S' and w[0] == 'S':
+                                lq = P_atom('logsafe(div(%s, %s))' % (canon(ot[0]), canon(LFSplit._strip(den))))
+                                holder['used'] = True
+                                return ('S', P_add(P_add(A[1], w[1], -1), lq))
+            return base(k, s_)
+        I = LFSplit(F, E, f, atoms_exp, reg)
+        holder['I'] = I
+        leaves = I.run({}, local_stores=True)
+        R.check(len(leaves) == 1, 'primal-paths|ExponentialCone' + tag, 'gradient_primal of the exponential cone has %d paths' % len(leaves), f.loc())
+        for li, (val, ret, st) in enumerate(leaves):
+            g = [st.get('var:g[%d_usize]' % i, st.get('g[%d_usize]' % i)) for i in range(3)]
+            ok = all(x is not None and x[0] == 'S' for x in g) and holder.get('used')
+            R.check(ok, 'primal-shape|ExponentialCone|%d%s' % (li, tag), 'gradient_primal result not evaluated (%s) or the log(omega q) term not found' % [x and x[0] for x in g], f.loc())
+            if not ok:
+                continue
+            e1 = RatF(P_const(NU3))
+            for i in range(3):
+                e1 = e1 + to_ratf(g[i][1], reg) * RatF(P_atom('s%d' % i))
+            R.check(e1.is_zero(), 'euler-primal|ExponentialCone|%d%s' % (li, tag),
+                    'ExponentialCone::gradient_primal: <g, s> + 3 = %s, not identically zero (with log(omega s1/s2) = A - omega + log(s1/s2), '
+                    'A the Wright-omega argument)' % P_fmt(e1.n)[:200], f.loc())
+
+    R.guard(body)
+
+
 def run(ctx, rep, tier):
     for cfg in (CONFIGS_THOROUGH if tier == 'thorough' else CONFIGS):
         F = ctx.facts(cfg)
@@ -176,3 +313,4 @@ def run(ctx, rep, tier):
         state_independence(rep, F, E, tag)
         scaling_fallback(rep, F, tag)
         update_order(rep, F, E, tag)
+        euler_identities(rep, F, E, tag)
